@@ -187,6 +187,41 @@ def rule_decode(ck, facts, lang, em, reg):
                 if s[KIND] == "a" and s[5][0] == "agg" and s[5][1][0] == "adt" and s[5][1][1] == roles.EXPR:
                     vs.add(s[5][1][3])
         built[name] = vs
+    # (always) a combinator that rebuilds a form does so on every path: a path that hands a child back in place of the
+    # node (`code_block` returning the body when it does not start with a `let`) changes the tree, and with it scoping
+    nb = 0
+    for name, (impl, ar, _) in sorted(reg.items()):
+        g = cg.fns.get(impl) if impl else None
+        if g is None or len(built.get(name) or ()) != 1:
+            continue  # `lift` and the like build whatever the value's type asks for: not the rebuild of one form
+        helpers_building = set()
+        for p2 in cg.reach([impl], stop=lambda p: COMB not in p and p != impl):
+            h = cg.fns.get(p2)
+            if h is not None and h.path != g.path and COMB in h.path and any(s2[KIND] == "a" and s2[5][0] == "agg" and s2[5][1][0] == "adt" and s2[5][1][1] == roles.EXPR for _, s2 in h.all_stmts()):
+                helpers_building.add(h.path)
+        building = set()
+        for b, s2 in g.all_stmts():
+            if s2[KIND] == "a" and s2[5][0] == "agg" and s2[5][1][0] == "adt" and s2[5][1][1] == roles.EXPR:
+                building.add(b)
+        for b, t in g.calls():
+            if (callee(t) or "") in helpers_building or ((callee(t) or "").startswith("mimium_lang::") and set(cg.reach([callee(t)], stop=lambda p: COMB not in p)) & helpers_building):
+                building.add(b)
+        if not building:
+            continue  # builds through closures only: not a straight rebuild
+        allocs = [b for b, t in g.calls() if (callee(t) or "").split("::")[-1] in ("alloc_code", "set_stack")]
+        if not allocs:
+            continue
+        nb += 1
+        seen = reachable(g, 0, avoid=building)
+        rets = [b for b in seen if g.term(b)[KIND] == "return"]
+        # only paths that hand a code value back count (an arity / type complaint may return early)
+        bypass = [b for b in rets if any(a in seen for a in allocs)]
+        key = "always|%s" % name
+        if bypass:
+            ck.bad(R, key, "%s (the implementation of `%s`) has a path that returns a code value without constructing the node it stands for (Expr::%s): what was quoted as that form comes back as something else (e.g. a block without its block, so the names bound in it stay visible after it)" % (g.short, name, "/".join(sorted(built[name]))), g.where())
+        else:
+            ck.ok(R, key)
+    ck.floor(R, "combinators_rebuilding_on_every_path", nb, 15)
     n = 0
     for v in sorted(cov.primary_handled()):
         tb = cov.arm_target(v)
@@ -481,6 +516,10 @@ def run(ck, facts, tier):
     from ..rules import patcover
 
     patcover.run(ck, facts, "C09.pattern-cover", roles.LANG)
+    # type annotations of staged code are rewritten by structural maps over types
+    from ..rules import typemap
+
+    typemap.run(ck, facts, "C09.type-map", roles.LANG, roles.TYPE)
     # `f!(args)` must equal splicing `f(args)`: the desugaring passes visit every child (shared with C04)
     from ..rules import belief, rewrite
 
